@@ -71,7 +71,21 @@ pub fn key_for(tenant: &str) -> String {
     format!("kyro_{}_{}", tenant, &secret[..32])
 }
 
+/// A free loopback port from a range owned by this process (16 shard processes start servers
+/// concurrently; an ephemeral port picked by bind(0) can be grabbed by another shard's server between
+/// the probe and our child's bind, and a harness that then talks to the WRONG server reports phantom
+/// violations). Start-up additionally verifies the server's identity (GetConfig.data_dir).
 fn free_port() -> u16 {
+    use std::sync::atomic::{AtomicU32, Ordering};
+    static NEXT: AtomicU32 = AtomicU32::new(0);
+    let base = 20_000 + (std::process::id() % 220) * 200;
+    for _ in 0..400 {
+        let n = NEXT.fetch_add(1, Ordering::SeqCst) % 200;
+        let port = (base + n) as u16;
+        if std::net::TcpListener::bind(("127.0.0.1", port)).is_ok() {
+            return port;
+        }
+    }
     let l = std::net::TcpListener::bind("127.0.0.1:0").expect("bind");
     l.local_addr().unwrap().port()
 }
@@ -237,8 +251,25 @@ level = "error"
                 std::thread::sleep(Duration::from_millis(20));
             }
             if ready {
-                self.child = Some(child);
-                return Ok(());
+                // identity: the server answering on our ports must be OUR child on OUR data directory
+                let mine = matches!(child.try_wait(), Ok(None))
+                    && match self.cfg.tenants.iter().find(|t| t.enabled) {
+                        Some(t) => match self.client(Some(key_for(&t.id))).and_then(|mut c| c.get_config().map_err(|e| e.to_string())) {
+                            Ok(cfg) => cfg.data_dir == self.data_dir().to_string_lossy(),
+                            Err(_) => false,
+                        },
+                        None => true,
+                    };
+                if mine {
+                    self.child = Some(child);
+                    return Ok(());
+                }
+                let _ = child.kill();
+                let _ = child.wait();
+                if attempt == 3 {
+                    return Err("the server answering on the chosen ports is not this harness's child (port clash)".into());
+                }
+                continue;
             }
             let exited = child.try_wait().ok().flatten();
             let _ = child.kill();
